@@ -81,7 +81,23 @@ func report(w *World, cfg runConfig, units []*UnitResult, obls []*Obligation, bo
 		if u.Err != "" {
 			fmt.Printf("CHECK-ERROR %s: %s\n", u.Name, u.Err)
 			checkErrors = append(checkErrors, u.Name+": "+u.Err)
-			exit = 2
+			if exit == 0 {
+				exit = 2
+			}
+			// A contract that no longer fits the code it is written for (a field, local or function it
+			// names is gone, or a sweep finds nothing to sweep) leaves every obligation of that unit
+			// undischarged: the proof that held on the unchanged tree does not exist for this tree.
+			// That is reported as a violation of the property (without a failing input), not only as a
+			// tool error.
+			if strings.Contains(u.Err, "no field ") || strings.Contains(u.Err, "unknown identifier") || strings.Contains(u.Err, "does not exist") ||
+				strings.Contains(u.Err, "(vacuous)") || strings.Contains(u.Err, "not found") {
+				os.MkdirAll(filepath.Join("/verif/out", "replay", cfg.prop), 0o755)
+				path := filepath.Join("/verif/out", "replay", cfg.prop, sanitize(u.Name)+"_contract.txt")
+				os.WriteFile(path, []byte(fmt.Sprintf("obligation: %s/contract-applies\nThe contract of %s no longer fits the code: %s\nEvery obligation generated from it on the unchanged tree is undischarged on this tree.\nno-failing-input-found\n", u.Name, u.Name, u.Err)), 0o644)
+				fmt.Printf("  FAIL %s/contract-applies: the contract no longer fits the code: %s\n", u.Name, u.Err)
+				fmt.Printf("VIOLATION property=%s replay=%s no-failing-input-found\n", cfg.prop, path)
+				exit = 1
+			}
 		}
 		if cfg.verbose {
 			for _, l := range u.Loops {
